@@ -358,7 +358,7 @@ class CRTWorld:
                 sim.spoint('cb.done')
                 t = world.transfers[self.tidx]
                 t['cbs'].append((sim.stamp(), 'done',
-                                 future._coordinator._done_event.is_set()))
+                                 getattr(getattr(future._coordinator, '_done_event', None), 'is_set', lambda: None)()))
 
         # the instant a transfer is reported as having finished its callbacks:
         # a path download must be published / its temporary file removed by then
@@ -567,7 +567,7 @@ def evaluate(w):
                 w.violation('C20', 'on-done-after-shutdown',
                             't%d: on_done at stamp %d after shutdown returned at %d'
                             % (t['idx'], c[0], R))
-        if not t['future']._coordinator._done_event.is_set():
+        if not getattr(getattr(t['future']._coordinator, '_done_event', None), 'is_set', lambda: True)():
             w.violation('C20', 'callbacks-never-complete',
                         't%d: done callbacks were never reported complete' % t['idx'])
         if t['type'] == 'download' and t['spec']['dst'] == 'path' and \
